@@ -19,7 +19,7 @@ x/staking/keeper/{delegation,slash}.go, x/staking/types/validator.go); `transfer
 `go/extract/c11.go` reads off that function's AST.
 -/
 namespace FxVerif.Model.C11
-open FxVerif.Gen.C11 (Cfg Party SE PE Simple Cond Stmt Wrapper)
+open FxVerif.Gen.C11 (Cfg Party SE PE Simple Cond Stmt Wrapper Who RCond RStmt)
 
 /-- 10^18: one unit of `LegacyDec` -/
 def ONE : Nat := 1000000000000000000
@@ -75,12 +75,22 @@ def wrappersRef : List Wrapper :=
     ⟨"WithdrawMethod", "distrMsgServer.WithdrawDelegatorReward", "caller", "args.Validator", "", "", true, true⟩,
     ⟨"ApproveSharesMethod", "stakingKeeper.SetAllowance", "caller", "args.Validator", "args.Spender", "args.Shares", true, true⟩ ]
 
+/-- the native action of `TransferShares.Run` the theorems are proved for (`go/extract/c11run.go`): the handler runs for
+`contract.Caller()` towards `args.To` at `args.GetValidator()` with `args.Shares`, its error fails the action -/
+def refRunTransfer : List RStmt := [.handler true .caller .argTo true true]
+
+/-- the native action of `TransferFromShares.Run`: FIRST, UNCONDITIONALLY, the allowance of `(args.GetValidator(),
+args.From, contract.Caller())` is decremented by `args.Shares` (a failure fails the action), THEN the handler runs for
+`args.From` towards `args.To` -/
+def refRunFrom : List RStmt :=
+  [.decAllowance true .argFrom .caller true true, .handler true .argFrom .argTo true true]
+
 /-- what the property needs of the code facts -/
 def good (c : Cfg) : Bool :=
   c.selfGuard && c.refuseRecvRedel && c.sharesCmp == "LT" && c.withdrawFrom && c.toLookupBeforeFromWrite &&
   c.withdrawTo && c.incPeriodForNewTo && c.decRefOnRemoval && c.delInfoOnRemoval && c.incRefForNewTo &&
   c.newToPeriodOffset == 1 && c.allowanceCheck && c.allowanceSubDecrease && c.transferFromArgs && c.sharesPositive &&
-  c.prog == refProg && c.wrappers == wrappersRef
+  c.prog == refProg && c.wrappers == wrappersRef && c.runTransfer == refRunTransfer && c.runFrom == refRunFrom
 
 inductive Err
   | noValidator | noDelegation | recvRedel | insufficient | allowance | badArgs
@@ -657,6 +667,97 @@ def State.transferOp (c : Cfg) (s : State) (from_ to v x : Nat) : Except Err Sta
   | .error e => .error e
   | .ok (v', rf, rt) => .ok (((s.setVS v v').addGain from_ rf).addGain to rt)
 
+/-- `decrementAllowance(ctx, valAddr, owner, spender, decrease)` -/
+def State.decAllowance (c : Cfg) (s : State) (v owner spender x : Nat) : Except Err State :=
+  let a := s.allow v owner spender
+  if c.allowanceCheck && decide (a < x) then .error .allowance else
+  if a < x then .error .negShares else
+  let a' := if c.allowanceSubDecrease then a - x else a
+  .ok { s with allow := fun p q r => if p = v ∧ q = owner ∧ r = spender then a' else s.allow p q r }
+
+/-- `transferFromShares` as the theorems were first proved for it (hand-written): allowance check and decrement, then the
+handler for `from_`; `State.exec` INTERPRETS the regenerated `cfg.runFrom` instead and `transferFromTx_eq` (Proofs/C11)
+shows the two agree for a good `cfg` -/
+def State.transferFromRef (c : Cfg) (s : State) (spender from_ to v x : Nat) : Except Err State :=
+  if !(s.okAcc spender && s.okAcc from_ && s.okAcc to && s.okVal v) then .error .badArgs else
+  if c.sharesPositive && x == 0 then .error .badArgs else
+  let a := s.allow v from_ spender
+  if c.allowanceCheck && decide (a < x) then .error .allowance else
+  if a < x then .error .negShares else
+  let a' := if c.allowanceSubDecrease then a - x else a
+  let s1 : State := { s with allow := fun p q r => if p = v ∧ q = from_ ∧ r = spender then a' else s.allow p q r }
+  s1.transferOp c from_ to v x
+
+/-! ### the native actions of the two Run methods: an interpreter for the regenerated statement lists -/
+
+/-- the arguments of one call: `contract.Caller()`, `args.From` (= the caller for `transferShares`, whose arguments have no
+such field), `args.To`, the validator index, whole shares -/
+structure RunEnv where
+  caller : Nat
+  from_ : Nat
+  to : Nat
+  v : Nat
+  x : Nat
+
+def RunEnv.who (e : RunEnv) : Who → Option Nat
+  | .caller => some e.caller
+  | .argFrom => some e.from_
+  | .argTo => some e.to
+  | .unknown _ => none
+
+def evalRCond (e : RunEnv) : RCond → Option Bool
+  | .eq a b => match e.who a, e.who b with | some x, some y => some (x == y) | _, _ => none
+  | .ne a b => match e.who a, e.who b with | some x, some y => some (x != y) | _, _ => none
+  | .unknown _ => none
+
+/-- one statement; the flag says that the action returned (successfully) here -/
+def State.execR (c : Cfg) (e : RunEnv) (s : State) : RStmt → Except Err (State × Bool)
+  | .decAllowance val o sp sh er =>
+    if !(val && sh) then .error .unsupported else
+    match e.who o, e.who sp with
+    | some o', some sp' =>
+      match s.decAllowance c e.v o' sp' e.x with
+      | .ok s' => .ok (s', false)
+      | .error z => if er then .error z else .ok (s, false)
+    | _, _ => .error .unsupported
+  | .handler val f t sh er =>
+    if !(val && sh) then .error .unsupported else
+    match e.who f, e.who t with
+    | some f', some t' =>
+      match s.transferOp c f' t' e.v e.x with
+      | .ok s' => .ok (s', false)
+      | .error z => if er then .error z else .ok (s, false)
+    | _, _ => .error .unsupported
+  | .guarded cnd x =>
+    match evalRCond e cnd with
+    | some true => s.execR c e x
+    | some false => .ok (s, false)
+    | none => .error .unsupported
+  | .retNil => .ok (s, true)
+  | .unknown _ => .error .unsupported
+
+def State.runR (c : Cfg) (e : RunEnv) : List RStmt → State → Except Err State
+  | [], s => .ok s
+  | r :: rs, s =>
+    match s.execR c e r with
+    | .ok (s', true) => .ok s'
+    | .ok (s', false) => State.runR c e rs s'
+    | .error z => .error z
+
+/-- the precompile method `transferShares(val, to, shares)` called by `from_`: argument validation, then the regenerated
+native action of `TransferShares.Run` -/
+def State.transferTx (c : Cfg) (s : State) (from_ to v x : Nat) : Except Err State :=
+  if !(s.okAcc from_ && s.okAcc to && s.okVal v) then .error .badArgs else
+  if c.sharesPositive && x == 0 then .error .badArgs else
+  State.runR c ⟨from_, from_, to, v, x⟩ c.runTransfer s
+
+/-- the precompile method `transferFromShares(val, from, to, shares)` called by `spender`: argument validation, then the
+regenerated native action of `TransferFromShares.Run` -/
+def State.transferFromTx (c : Cfg) (s : State) (spender from_ to v x : Nat) : Except Err State :=
+  if !(s.okAcc spender && s.okAcc from_ && s.okAcc to && s.okVal v) then .error .badArgs else
+  if c.sharesPositive && x == 0 then .error .badArgs else
+  State.runR c ⟨spender, from_, to, v, x⟩ c.runFrom s
+
 def State.exec (c : Cfg) (s : State) : Op → Except Err State
   | .delegate d v amt =>
     if !(s.okAcc d && s.okVal v) || amt == 0 then .error .badArgs else
@@ -714,16 +815,8 @@ def State.exec (c : Cfg) (s : State) : Op → Except Err State
   | .approve owner spender v shares =>
     if !(s.okAcc owner && s.okAcc spender && s.okVal v) then .error .badArgs else
     .ok { s with allow := fun a b c' => if a = v ∧ b = owner ∧ c' = spender then shares else s.allow a b c' }
-  | .transfer from_ to v x => s.transferOp c from_ to v x
-  | .transferFrom spender from_ to v x =>
-    if !(s.okAcc spender && s.okAcc from_ && s.okAcc to && s.okVal v) then .error .badArgs else
-    if c.sharesPositive && x == 0 then .error .badArgs else
-    let a := s.allow v from_ spender
-    if c.allowanceCheck && decide (a < x) then .error .allowance else
-    if a < x then .error .negShares else
-    let a' := if c.allowanceSubDecrease then a - x else a
-    let s1 : State := { s with allow := fun p q r => if p = v ∧ q = from_ ∧ r = spender then a' else s.allow p q r }
-    s1.transferOp c from_ to v x
+  | .transfer from_ to v x => s.transferTx c from_ to v x
+  | .transferFrom spender from_ to v x => s.transferFromTx c spender from_ to v x
   | .alloc v amt =>
     if !(s.okVal v) then .error .badArgs else .ok { s.setVS v ((s.vs v).alloc amt) with distrIn := s.distrIn + amt }
   | .slash v power factor =>
